@@ -266,6 +266,7 @@ type Trace struct {
 	ParkedAtReturn         int          `json:"parked_at_return,omitempty"`
 	Output                 string       `json:"output,omitempty"`
 	OutputWrites           int          `json:"output_writes,omitempty"`
+	OutputRead             bool         `json:"output_read,omitempty"` // every Run returned: the plain writer was read
 	SortIDs                []string     `json:"sort_ids,omitempty"`
 	SortErr                string       `json:"sort_err,omitempty"`
 	SerialCounter          int          `json:"serial_counter"`
@@ -950,6 +951,7 @@ func Execute(spec *Spec) *Trace {
 	if returned >= ng && !tr.Deadlock && tr.Timeout == "" && tr.Stalled == "" {
 		// every Run returned: its goroutines are gone, plain state can be read
 		tr.Output = string(r.out.buf)
+		tr.OutputRead = true
 		tr.OutputWrites = r.out.writes
 		tr.SerialCounter = r.serialCtr
 		tr.TaskCounters = append([]int{}, r.taskCounters...)
